@@ -253,6 +253,33 @@ def stores_to_name(func, name):
     return out
 
 
+def carrying_stores(func, name, is_source, _depth=0):
+    """CFG store nodes of local `name` whose stored value is a *source* value: directly (`is_source(value expr)`), or
+    a pure copy `name = w` (e.g. the result variable of an expanded helper) where `w` can reach the copy only freshly
+    from one of its own carrying stores.  Lets a rule follow a value through the temporaries a refactoring introduces."""
+    g = func.cfg
+    out = []
+    for s in stores_to_name(func, name):
+        if s.kind != "stmt" or not isinstance(s.ast, ast.Assign):
+            continue
+        v = s.ast.value
+        if is_source(v):
+            out.append(s)
+        elif isinstance(v, ast.Name) and v.id != name and _depth < 3:
+            w = v.id
+            src = carrying_stores(func, w, is_source, _depth + 1)
+            if not src:
+                continue
+            others = [x for x in stores_to_name(func, w) if x not in src]
+            stale = False
+            for o in [g.entry] + others:
+                if g.path(o, [s], without_nodes=src, follow_exc=False) is not None:
+                    stale = True
+            if not stale:
+                out.append(s)
+    return out
+
+
 def _flat(t):
     if isinstance(t, (ast.Tuple, ast.List)):
         for x in t.elts:
